@@ -108,3 +108,61 @@ BOUNDED = {'C07': [dict(case='c07_enum', function='src/resolver_utils/enum.rs::p
                    dict(case='c07_float', function='src/types/external/floats.rs::<f32|f64 as ScalarType>::{parse,to_value}',
                         bound='boundary floats (0, -0, subnormal, f32/f64 MIN/MAX, 2^24+1, 1e39, ...) x {f32, f64}; non-finite values are reported as a known finding, not searched',
                         why='Verus leaves f32/f64 casts uninterpreted; Kani cannot take async_graphql::Value by value (measured)')]}
+
+
+# ----------------------------------------------------------------------------------------------------------------------
+# enums: resolver_utils::parse_enum accepts exactly the names of the items table
+from vx.unit import IterFind, ClosureMatch  # noqa: E402
+
+E = 'src/resolver_utils/enum.rs'
+
+ENUM_SHIMS = r'''
+// EnumType::items(): the table generated by #[derive(Enum)] -- abstract here (any table)
+pub trait EnumType: Sized + Copy + 'static {
+    spec fn spec_items() -> Seq<EnumItem<Self>>;
+    fn items() -> (r: &'static [EnumItem<Self>]) ensures r@ == Self::spec_items();
+}
+impl InputValueError { pub fn custom_fmt() -> InputValueError { InputValueError { message: verif_msg() } } }
+'''
+
+ENUM_SPEC = r'''
+pub open spec fn item_index<T>(items: Seq<EnumItem<T>>, name: Seq<char>) -> Option<int> {
+    if exists|i: int| 0 <= i < items.len() && items[i].name@ == name {
+        Some(choose|i: int| 0 <= i < items.len() && items[i].name@ == name && forall|j: int| 0 <= j < i ==> items[j].name@ != name)
+    } else { None }
+}
+// the text an enum input value carries: an enum literal, or a string (variables arrive as JSON strings)
+pub open spec fn enum_text(v: Value) -> Option<Seq<char>> { match v { Value::Enum(s) => Some(s@), Value::String(s) => Some(s@), _ => None } }
+'''
+
+
+def enum_unit(kf):
+    u = Unit('c07_parse_enum', ['C07'], 'parse_enum accepts exactly the values naming an item of the enum table and yields that item\'s value')
+    u.kf = kf
+    value_types(u)
+    u.prelude('string_eq')
+    u.prelude('iter_shims')
+    u.extract_type(E, ['struct EnumItem'])
+    u.trusted(ENUM_SHIMS, 'EnumType shim')
+    u.spec(ENUM_SPEC, 'enum table spec')
+    u.extract_fn(E, ['fn parse_enum'],
+                 sig_rewrites=[ReSub(r'<T: EnumType \+ InputType>', '<T: EnumType>')],
+                 rewrites=[Sub('Value::Enum(s) => s,', 'Value::Enum(s) => s.as_str(),', rule='R-ty'),
+                           CallSub('InputValueError::expected_type', 'InputValueError::from_msg()', rule='R-msg', count=1),
+                           CallSub('InputValueError::custom', 'InputValueError::custom_fmt()', rule='R-msg', count=1),
+                           IterFind('slice_find', 'EnumItem<T>', 'p__.name@ == value@'),
+                           ClosureMatch('opt.map'), ClosureMatch('opt.ok_or_else')],
+                 ensures=['''match enum_text(value) {
+            None => r is Err,                                                                  // not an enum literal / string: rejected
+            Some(s) => match item_index(T::spec_items(), s) {
+                None => r is Err,                                                              // names no item: rejected
+                Some(i) => r is Ok && r->Ok_0 == T::spec_items()[i].value,                     // the (first) item of that name
+            },
+        }'''])
+    u.assume('the items() table is abstract (derive(Enum) output): the contract holds for every table')
+    u.search_case('enum.rs', 'c07_enum')
+    return u
+
+
+UNITS['c07_parse_enum'] = (['C07'], enum_unit)
+SEARCH['c07_parse_enum'] = ['c07_enum']
